@@ -75,6 +75,49 @@ var c15Bases = map[string]string{
         operation: GreaterThan
         value: 7
 `,
+	// every operation, names in other letter cases than the canonical one (the format is case-insensitive)
+	"conditional-lettercase": `seccomp:
+  default_action: ALLOW
+  syscalls:
+  - action: Errno
+    names_with_args:
+    - name: getppid
+      arguments:
+      - argument: 0
+        operation: equal
+        value: 0x100000005
+    - name: getppid
+      arguments:
+      - argument: 1
+        operation: NOTEQUAL
+        value: 0
+      - argument: 2
+        operation: greaterthan
+        value: 0xffffffff
+    - name: getuid
+      arguments:
+      - argument: 3
+        operation: lessThan
+        value: 0x100000000
+      - argument: 4
+        operation: GREATERorEQUAL
+        value: 9
+    - name: getgid
+      arguments:
+      - argument: 5
+        operation: lessorequal
+        value: 4
+    - name: getegid
+      arguments:
+      - argument: 0
+        operation: bitsset
+        value: 0x8000000000000001
+    - name: getpgrp
+      arguments:
+      - argument: 1
+        operation: BITSNOTSET
+        value: 0x30
+`,
 	"kill": `seccomp:
   default_action: allow
   syscalls:
@@ -427,7 +470,7 @@ func checkC15(tier, replay string) int {
 	ctx.Cov["runs_in_which_the_target_started"] = ranTarget
 	ctx.Cov["runs_that_must_be_refused"] = refused
 	ctx.Cov["probe_events_observed_by_the_target"] = probes
-	ctx.Cov["rule"] = "the built cmd/sandbox binary is run with a probe target (a separate program that first appends a marker line, then issues probe syscalls for every partition cell of the policy) on: 8 base policy files (incl. two under which execve is not allowed: no target can be started) whole (root / uid 65534 / with -no-new-privs=false / non-existent target), every line prefix and every byte prefix inside the first and last rule (thorough: every byte prefix), 13 defect kinds per base plus an unknown name at every position where a syscall name stands, JSON renderings with operands that need all 64 bits (unknown action/default/syscall/operation, wrong key, no syscalls, non-YAML, tab indentation, empty, argument 6 / -1, non-numeric value, duplicate name), a policy compiling to > 4096 instructions, a missing file and a directory; the same bytes are loaded by the harness through ucfg: if that fails, the policy is invalid or the kernel must refuse, the run must exit non-zero with no marker; otherwise the marker exists and the target's observations equal the reference decisions of the policy the file denotes"
+	ctx.Cov["rule"] = "the built cmd/sandbox binary is run with a probe target (a separate program that first appends a marker line, then issues probe syscalls for every partition cell of the policy) on: 9 base policy files (one spelling all eight operations and the actions in non-canonical letter case) (incl. two under which execve is not allowed: no target can be started) whole (root / uid 65534 / with -no-new-privs=false / non-existent target), every line prefix and every byte prefix inside the first and last rule (thorough: every byte prefix), 13 defect kinds per base plus an unknown name at every position where a syscall name stands, JSON renderings with operands that need all 64 bits (unknown action/default/syscall/operation, wrong key, no syscalls, non-YAML, tab indentation, empty, argument 6 / -1, non-numeric value, duplicate name), a policy compiling to > 4096 instructions, a missing file and a directory; the same bytes are loaded by the harness through ucfg: if that fails, the policy is invalid or the kernel must refuse, the run must exit non-zero with no marker; otherwise the marker exists and the target's observations equal the reference decisions of the policy the file denotes"
 	ctx.Assumptions = []string{"a truncated file that still parses is a different valid policy and is judged as such", "probe syscalls ignore arguments", "fault points before exec are realised through inputs (file defects, kernel refusals), not by interrupting the sandbox process"}
 	if replay != "" {
 		return finishReplay(ctx)
